@@ -239,6 +239,27 @@ func init() {
 		},
 		LevelNote: "Proved: KerberosFlags bit numbering (flag i = bit i from the most significant bit of the first octet, RFC 4120 5.2.8) for IsFlagSet, and that SetFlag / UnsetFlag change exactly that flag and keep at least 32 bits. Decided exactly over the current source (table obligations): every field of every struct handed to the ASN.1 codec (44 structs of RFC 4120 / 4178 / 3244 / 6806) carries the RFC's context tag number, EXPLICIT tagging, OPTIONAL-ness, GeneralString / GeneralizedTime typing, and an integer type wide enough for the RFC range (UInt32 needs more than 32 bits). Bounded stand-ins (not proofs): DER length octets exhaustive to 2^24, message round trips.",
 	}
+	props["C19"] = &PropDef{
+		Funcs: []string{
+			`(*pac.SignatureData).Unmarshal`, `(*pac.PACType).verify`, `(*pac.PACType).Unmarshal`, `(*pac.PACType).ProcessPACInfoBuffers`,
+			`(*messages.Ticket).GetPACType`, `(*keytab.Keytab).GetEncryptionKey`, `crypto.GetChksumEtype`,
+			`\(crypto\.[A-Za-z0-9]+\)\.VerifyChecksum`, `crypto/common.VerifyChecksum`, `service.VerifyAPREQ`,
+		},
+		Kinds:           kinds(contractKinds...),
+		NeedObligations: true,
+		QuickTimeout:    20,
+		Assumptions: []string{
+			"the keyed checksum of a checksum type is the uninterpreted et_cksum (C07 relates it to the HMAC compositions); 'changing any bit makes it fail' rests on the MAC assumption",
+			"mstypes.Reader returns the octets at its cursor, little-endian for integers (model of the rpc/v2 dependency, trusted); the NDR decoders of the individual info buffers (KerbValidationInfo, ClientInfo, ...) are trusted to fill only structures they allocate",
+			"trusted frame of ProcessPACInfoBuffers (writes the PAC object and its to-be-signed copy only)",
+		},
+		NotDecided: []string{
+			"that ZeroSigData equals the PAC octets with exactly the two signature fields zeroed is proved per signature buffer (SignatureData.Unmarshal zeroes exactly the signature octets) but not as a whole-PAC postcondition of ProcessPACInfoBuffers",
+			"the account attributes exposed to the application (names, ids, group SIDs, logon times): the NDR decoding of KerbValidationInfo and GetGroupMembershipSIDs are not under functional contract",
+			"the KDC signature is not verified by the library (only its presence is required), as in the code",
+		},
+		LevelNote: "Proved for every PAC, key and keytab: SignatureData.Unmarshal reads the checksum type as the little-endian word at 0, takes exactly the type's signature length ([MS-PAC] 2.8: 16/12/12/16/24) and returns the buffer with exactly those octets zeroed, everything else (including a trailing RODC identifier) kept; verify / ProcessPACInfoBuffers succeed only with KerbValidationInfo, ClientInfo, server and KDC signature buffers present and the server signature equal to the keyed checksum (usage 17) of its declared type over ZeroSigData; GetPACType reports a PAC without error only if that holds under a keytab key matching the (override) service principal, realm, kvno and etype of the ticket; VerifyAPREQ accepts a request carrying a PAC only then (ghost lastPACBad).",
+	}
 	props["C17"] = &PropDef{
 		Funcs: []string{
 			`(*gssapi.WrapToken).Marshal`, `(*gssapi.WrapToken).Unmarshal`, `(*gssapi.WrapToken).computeCheckSum`, `(*gssapi.WrapToken).Verify`,
